@@ -195,6 +195,88 @@ def first_guard_rejects_whence(fn):
     return False
 
 
+def decompresser_buffer_discipline(ctx, chk, rule):
+    """In the decompresser every inflated byte goes through the internal buffer: results of `<decompressor>.decompress(...)` are only ever
+    appended to the buffer, and what a read returns is the head of the buffer, an empty constant, or a join of the results of sized reads on
+    self.  (Otherwise bytes already inflated and waiting in the buffer are skipped: data is lost from the middle of the object.)"""
+    prog = ctx.prog
+    zcls = prog.cls(ZL)
+    rc = zcls.methods.get('_read_compressed')
+    chk.require(rc is not None, f'{ZL}._read_compressed not found')
+    init = zcls.methods.get('__init__')
+    buf = None
+    for n in walk_local(init.node):
+        if isinstance(n, ast.Assign) and isinstance(n.targets[0], ast.Attribute) and isinstance(n.value, ast.Constant) and n.value.value == b'':
+            buf = n.targets[0].attr
+    chk.require(buf is not None, 'decompresser __init__: internal buffer attribute (initialised to b\'\') not found')
+    inflates = [c for c in walk_local(rc.node) if isinstance(c, ast.Call) and isinstance(c.func, ast.Attribute) and c.func.attr == 'decompress']
+    chk.require(inflates, '_read_compressed: decompress() call not found')
+    problems = []
+    for c in inflates:
+        par = getattr(c, '_parent', None)
+        tgt = None
+        if isinstance(par, ast.Assign) and isinstance(par.targets[0], ast.Name):
+            tgt = par.targets[0].id
+        elif isinstance(par, ast.AugAssign) and isinstance(par.target, ast.Attribute) and par.target.attr == buf:
+            continue
+        if tgt is None:
+            problems.append((c, 'the result of decompress() is not stored'))
+            continue
+        uses = [x for x in walk_local(rc.node) if isinstance(x, ast.Name) and x.id == tgt and isinstance(x.ctx, ast.Load)]
+        okuse = bool(uses)
+        for u in uses:
+            up = getattr(u, '_parent', None)
+            if isinstance(up, ast.AugAssign) and isinstance(up.op, ast.Add) and isinstance(up.target, ast.Attribute) and up.target.attr == buf and up.value is u:
+                continue
+            if isinstance(up, ast.BinOp) and isinstance(up.op, ast.Add) and isinstance(getattr(up, '_parent', None), ast.Assign) \
+                    and isinstance(up._parent.targets[0], ast.Attribute) and up._parent.targets[0].attr == buf and buf in names_in(up):
+                continue
+            okuse = False
+        if not okuse:
+            problems.append((c, f'`{tgt}` (inflated bytes) is used otherwise than being appended to self.{buf}'))
+    for r in [n for n in walk_local(rc.node) if isinstance(n, ast.Return) and n.value is not None]:
+        v = r.value
+        if isinstance(v, ast.Constant) and v.value == b'':
+            continue
+        if isinstance(v, ast.Name):
+            src = [a for a in walk_local(rc.node) if isinstance(a, ast.Assign) and v.id in names_in(a.targets[0]) and a.lineno <= r.lineno]
+            if src and all(buf in names_in(a.value) for a in src):
+                continue
+            if src and all(isinstance(a.value, (ast.List, ast.Constant)) for a in src):
+                continue
+            problems.append((r, f'`{v.id}` is returned but is not cut from the head of self.{buf}'))
+            continue
+        if isinstance(v, ast.Call) and isinstance(v.func, ast.Attribute) and v.func.attr == 'join':
+            lst = v.args[0] if v.args else None
+            if isinstance(lst, ast.Name):
+                apps = [c for c in walk_local(rc.node) if isinstance(c, ast.Call) and isinstance(c.func, ast.Attribute) and c.func.attr == 'append' and norm(c.func.value) == lst.id]
+                okj = bool(apps)
+                for a in apps:
+                    arg = a.args[0] if a.args else None
+                    def encl_loop(x):
+                        q = getattr(x, '_parent', None)
+                        while q is not None and not isinstance(q, (ast.While, ast.For, ast.FunctionDef)):
+                            q = getattr(q, '_parent', None)
+                        return q
+                    srcs = [x for x in walk_local(rc.node) if isinstance(x, ast.Assign) and isinstance(arg, ast.Name) and arg.id in names_in(x.targets[0]) and encl_loop(x) is encl_loop(a)]
+                    if not (srcs and all(isinstance(x.value, ast.Call) and isinstance(x.value.func, ast.Attribute) and x.value.func.attr in ('read', '_read_compressed')
+                                         and norm(x.value.func.value) == 'self' and x.value.args for x in srcs)):
+                        okj = False
+                if okj:
+                    continue
+            problems.append((r, 'the joined pieces are not results of sized reads on self'))
+            continue
+        if isinstance(v, ast.Subscript) and buf in names_in(v.value):
+            continue
+        problems.append((r, f'`{norm(v)[:60]}` is returned but is not taken from self.{buf}'))
+    if problems:
+        n0, why = problems[0]
+        chk.bad(rule, rc.qualname, norm(n0)[:100], f'inflated bytes bypass the internal buffer ({why}): bytes already inflated by an earlier sized read and still waiting in the buffer are skipped, '
+                'so a read() after a read(n) loses data from the middle of the object', where=f'{rc.module.relpath}:{n0.lineno}')
+    else:
+        chk.ok(rule, rc.qualname, f'{len(inflates)} decompress() call(s)', detail=f'all inflated bytes are appended to self.{buf}; every return hands out the head of the buffer, b\'\' or a join of sized reads')
+
+
 def last_assignment_in(f, name, before):
     from ..effects import last_assignment
     return last_assignment(name, f, before)
@@ -489,6 +571,8 @@ def run(ctx):
         chk.ok(R8, si.qualname, norm(bw[0].test) + ': seek(0)', detail='a target behind the current position restarts from 0 before reading forward')
     else:
         chk.bad(R8, si.qualname, 'backward seek', 'a target behind the current position no longer rewinds to 0 before the forward loop: the seek silently stays at the old position', where=f'{si.module.relpath}:{si.lineno}')
+
+    decompresser_buffer_discipline(ctx, chk, R8)
 
     R6 = chk.rule('C07.R6', 'decompresser rewind (re-inflate from 0) resets every piece of decompression state that __init__ initialises', 1)
     rewind_reset(ctx, chk, R6)
